@@ -479,6 +479,10 @@ func runC09(c *Ctx) {
 	// ---- R8 the lookups that produce the Definition links cannot miss for a name the loader resolved (shared with C07.R11)
 	r8 := c.Rule("R8", "the loader only adds to the schema's registries", 1)
 	registriesGrowOnly(c, r8)
+
+	// ---- R9 "valid implies linked" rests on the rules that reject what the walker cannot link (shared with C08.R9)
+	r9 := c.Rule("R9", "no report of a rule is hidden behind the emptiness of an unrelated list", 8)
+	c08FastPath(c, r9)
 }
 
 // c09OnlyWalkerWrites: outside the walker (and the parser, which builds the nodes, and the JSON decoder, which builds
@@ -1571,6 +1575,9 @@ func runC08(c *Ctx) {
 
 	r8 := c.Rule("R8", "the null-for-non-null test of ValuesOfCorrectType cannot be bypassed", 1)
 	c08NullTestFirst(c, r8)
+
+	r9 := c.Rule("R9", "no report of a rule is hidden behind the emptiness of an unrelated list", 8)
+	c08FastPath(c, r9)
 }
 
 // typeCaseEntry: the block entered when `it.(type)` is *ast.<name>.
